@@ -127,6 +127,7 @@ func (table *Table) Dispatch(buf []byte) {
 	table.numIn.Inc(1)
 
 	conf := table.config.Load().(TableConfig)
+	verifAfterLoad("table.Dispatch")
 
 	key, val, ts, err := m20.ValidatePacket(buf_copy, conf.Validation_level_legacy.Level, conf.Validation_level_m20.Level)
 	if err != nil {
@@ -189,6 +190,7 @@ func (table *Table) Dispatch(buf []byte) {
 // buf is assumed to have no whitespace at the end
 func (table *Table) DispatchAggregate(buf []byte) {
 	conf := table.config.Load().(TableConfig)
+	verifAfterLoad("table.DispatchAggregate")
 	routed := false
 	log.Tracef("table received aggregate packet %s", buf)
 
